@@ -710,12 +710,35 @@ def generate_text(repo, ns="Cur"):
 CHECKED = ("view2_ends", "calc_lengths", "pos_col_slice", "col_slice_slice", "col_slice_int")
 
 HEADER_C = """import NpsVerif.Gen.PreludeW
+import NpsVerif.Gen.Ref
 /-! GENERATED by tools/translate.py from /repo's current source on every run. Do not edit.
 The column-slice kernels of `Gen.Cur`, same text, over wrapping signed 32-bit integers (`Gen.W32`, see PreludeW). -/
 set_option linter.unusedVariables false
 namespace Gen.CurW
 open Gen
 """
+
+
+def _fallback_w(name):
+    """W32 kernel used when the translator rejects the current source of a kernel (the Int kernel is then the reference
+    definition, see kernels.fallback): the reference kernel on the stored values, so that the library still compiles; the
+    translator error itself is reported as a broken obligation by the check"""
+    import kernels
+    spec = next(k for k in kernels.KERNELS if k["name"] == name)
+    params = list(spec.get("rowparams", [])) + [v for v in spec.get("params", {}).values()]
+    sig = " ".join(f"({n} : {'W32' if t == INT else 'Option W32'})" for n, t in params)
+    args = " ".join(f"{n}.v" if t == INT else f"({n}.map (·.v))" for n, t in params)
+    call = f"(Gen.Ref.{name} {args})"
+    ty = spec["type"]
+    if ty == "Int":
+        body, rt = f"⟨{call}⟩", "W32"
+    elif ty == "Int × Int × Int":
+        body, rt = f"let t := {call}; (⟨t.1⟩, ⟨t.2.1⟩, ⟨t.2.2⟩)", "W32 × W32 × W32"
+    elif ty == "Option (Int × Int)":
+        body, rt = f"{call}.map fun p => (⟨p.1⟩, ⟨p.2⟩)", "Option (W32 × W32)"
+    else:
+        raise Unsupported(f"no W32 fallback for kernel type {ty}")
+    return f"/-- TRANSLATOR ERROR for this kernel: the reference kernel on the stored values -/\ndef {name} {sig} : {rt} :=\n  {body}\n"
 
 
 def checked_text(text):
@@ -726,6 +749,9 @@ def checked_text(text):
         if m is None:
             continue
         d = m.group(0)
+        if "TRANSLATOR ERROR" in d:
+            parts.append(_fallback_w(name))
+            continue
         d = d.replace("Int.fdiv", "W32.fdiv").replace("Int.fmod", "W32.fmod")
         d = re.sub(r"(?<![A-Za-z0-9_.])Int(?![A-Za-z0-9_.])", "W32", d)
         d = re.sub(r"(?<![A-Za-z0-9_.])iabs(?![A-Za-z0-9_])", "W32.iabs", d)
